@@ -405,7 +405,7 @@ func c08Replay(pl json.RawMessage) (string, []core.Violation) {
 func init() {
 	core.Register(&core.PropSpec{
 		ID: "C08", Level: "exploration",
-		Rule:     "every accepted program of the universes (ALL token sequences <= n, n=4 quick / 5 thorough, in space and LF layouts; the statement families in every layout with <= k deviations over gaps {LF, none, comment, blank line, LF+indent, tab} and dropped semicolons; every expression chain <= depth 2 on one line and one token per line; multi-line, re-quoted and non-ASCII literals followed by more tokens) is compiled with a source map in compact mode and in 4 (quick) / all 21 (thorough) pretty option sets; the mappings are decoded by the independent decoder; for EVERY segment the independent tokenizer must find a token starting exactly at the generated position in Code and one starting exactly at the source position in the source, of the same kind and lexeme (string/template literals: same kind); segments are ordered by generated position; a segment at an identifier carries that identifier as name, every identifier token of Code is covered by such a segment, name indices are in range and names unique. A column is accepted if it is right in UTF-16 units or in bytes. non-trivial = maps of multi-line sources",
+		Rule:     "every accepted program of the universes (ALL token sequences <= n, n=4 quick / 5 thorough, in space and LF layouts; the statement families in every layout with <= k deviations over gaps {LF, none, comment, blank line, LF+indent, tab} and dropped semicolons; every expression chain <= depth 2 on one line and one token per line; multi-line, re-quoted and non-ASCII literals followed by more tokens) is compiled with a source map in compact mode and in 4 (quick) / all 21 (thorough) pretty option sets; the mappings are decoded by the independent decoder; for EVERY segment the independent tokenizer must find a token starting exactly at the generated position in Code and one starting exactly at the source position in the source, of the same kind and lexeme (string/template literals: same kind); segments are ordered by generated position; a segment at an identifier carries that identifier as name, every identifier token of Code is covered by such a segment, name indices are in range and names unique. A column is accepted if it is right in UTF-16 units or in bytes. non-trivial = maps of multi-line sources Added: generated code is split into lines as the source-map builder is specified to (LF, CRLF, lone CR); CRLF and CRLF+comment gaps; 8 program prefixes (blank lines, comments, CRLF before the first statement); compiler reuse (a compiler that compiled another program before must emit the same code, mappings and names); the scale family (long lines: three-digit VLQ deltas; hundreds of names and lines).",
 		Assume:   []string{"columns: UTF-16 code units or bytes are both accepted (identical for ASCII)", "string literals are compared by kind only (quote style and escaping may change)"},
 		QuickSec: 300, ThorSec: 2400, Run: c08Run, Replay: c08Replay,
 		Evals: "maps_checked", Nontriv: "maps_of_multiline_sources",
